@@ -78,6 +78,9 @@ pub struct RulesCfg {
     pub with_pos: bool,
     pub repeat_bias: f64,
     pub emit_gen: bool,
+    pub bfs_depth: usize,
+    pub bfs_budget: usize,
+    pub family: usize,
 }
 
 pub fn gen_event(
@@ -160,6 +163,126 @@ fn caps_chain(
     }
 }
 
+// one random member of family (fi mod 3): 0 castling, 1 en passant, 2 promotion
+fn family_member(t: &Tables, rng: &mut StdRng, fi: usize) -> Option<BoardState> {
+    for _try in 0..200 {
+        let mut pcs: Vec<(u32, u32)> = Vec::new();
+        let mut cr = 0u32;
+        let mut used = std::collections::HashSet::new();
+        let mut put = |pcs: &mut Vec<(u32, u32)>, used: &mut std::collections::HashSet<u32>, s: u32, c: u32| -> bool {
+            if used.contains(&s) {
+                return false;
+            }
+            used.insert(s);
+            pcs.push((s, c));
+            true
+        };
+        let stm = rng.gen_range(0..2u32);
+        match fi % 3 {
+            0 => {
+                // kings at home, a random non-empty subset of corner rooks with their rights, 1-3 random officers
+                put(&mut pcs, &mut used, 5, 6);
+                put(&mut pcs, &mut used, 61, 12);
+                for (sq, pc, bit) in [(8u32, 4u32, 1u32), (1, 4, 2), (64, 10, 4), (57, 10, 8)] {
+                    if rng.gen_bool(0.6) {
+                        put(&mut pcs, &mut used, sq, pc);
+                        cr |= bit;
+                    }
+                }
+                if cr == 0 {
+                    continue;
+                }
+                for _ in 0..rng.gen_range(1..=3) {
+                    let kind = [2u32, 3, 3, 4, 5][rng.gen_range(0..5)];
+                    let col = rng.gen_range(0..2u32);
+                    // board corners and the rim are where the special cases live: a quarter of the officers go to a corner
+                    let sq = if rng.gen_bool(0.25) { [1u32, 8, 57, 64][rng.gen_range(0..4)] } else { rng.gen_range(1..=64) };
+                    put(&mut pcs, &mut used, sq, kind + 6 * col);
+                }
+            }
+            1 => {
+                // a pawn on its start rank next to the file of an enemy pawn that could capture it en passant
+                let c = stm; // the side to move double-steps, the other side captures next
+                let f = rng.gen_range(1..=8u32);
+                let nf = if f == 1 { 2 } else if f == 8 { 7 } else if rng.gen_bool(0.5) { f - 1 } else { f + 1 };
+                let (start_rank, cap_rank) = if c == 0 { (2u32, 4u32) } else { (7u32, 5u32) };
+                put(&mut pcs, &mut used, 8 * (start_rank - 1) + f, 1 + 6 * c);
+                put(&mut pcs, &mut used, 8 * (cap_rank - 1) + nf, 1 + 6 * (1 - c));
+                // the capturer's king often on the capture rank (pins through both pawns) or on a diagonal
+                let kr = if rng.gen_bool(0.5) { cap_rank } else { rng.gen_range(1..=8u32) };
+                put(&mut pcs, &mut used, 8 * (kr - 1) + rng.gen_range(1..=8u32), 6 + 6 * (1 - c));
+                put(&mut pcs, &mut used, rng.gen_range(1..=64), 6 + 6 * c);
+                // sliders of the double-stepping side (pin candidates) and one extra pawn pair
+                for _ in 0..rng.gen_range(1..=2) {
+                    let kind = [3u32, 4, 5][rng.gen_range(0..3)];
+                    let sq = if rng.gen_bool(0.5) { 8 * (cap_rank - 1) + rng.gen_range(1..=8u32) } else { rng.gen_range(1..=64) };
+                    put(&mut pcs, &mut used, sq, kind + 6 * c);
+                }
+            }
+            _ => {
+                // pawns one step from promotion with officers to capture on the last rank
+                let c = stm;
+                let (pr, lr) = if c == 0 { (7u32, 8u32) } else { (2u32, 1u32) };
+                for _ in 0..rng.gen_range(1..=2) {
+                    put(&mut pcs, &mut used, 8 * (pr - 1) + rng.gen_range(1..=8u32), 1 + 6 * c);
+                }
+                for _ in 0..rng.gen_range(1..=3) {
+                    let kind = [2u32, 3, 4, 5][rng.gen_range(0..4)];
+                    put(&mut pcs, &mut used, 8 * (lr - 1) + rng.gen_range(1..=8u32), kind + 6 * (1 - c));
+                }
+                put(&mut pcs, &mut used, rng.gen_range(1..=64), 6 + 6 * c);
+                put(&mut pcs, &mut used, rng.gen_range(1..=64), 6 + 6 * (1 - c));
+                // sometimes the enemy keeps a castling right with its rook on the last rank corner
+                if rng.gen_bool(0.3) {
+                    let (ks, rs, bit) = if c == 0 { (61u32, 64u32, 4u32) } else { (5u32, 8u32, 1u32) };
+                    if !used.contains(&ks) && !used.contains(&rs) && !pcs.iter().any(|(_, p)| *p == 6 + 6 * (1 - c)) {
+                        put(&mut pcs, &mut used, ks, 6 + 6 * (1 - c));
+                        put(&mut pcs, &mut used, rs, 4 + 6 * (1 - c));
+                        cr |= bit;
+                    }
+                }
+            }
+        }
+        // exactly one king each, no pawns on the first / last rank, side not to move not in check
+        let wk = pcs.iter().filter(|(_, p)| *p == 6).count();
+        let bk = pcs.iter().filter(|(_, p)| *p == 12).count();
+        if wk != 1 || bk != 1 {
+            continue;
+        }
+        if pcs.iter().any(|(s, p)| (*p == 1 || *p == 7) && (*s <= 8 || *s >= 57)) {
+            continue;
+        }
+        let b = crate::misc::board_from(t, &pcs, stm, cr, 0);
+        let other = if stm == 0 { PieceColor::Black } else { PieceColor::White };
+        if is_check(&b, other) {
+            continue;
+        }
+        return Some(b);
+    }
+    None
+}
+
+#[allow(clippy::too_many_arguments)]
+fn bfs(t: &Tables, out: &mut Shards, shard: usize, board: &BoardState, par: u64, via: usize, depth: usize, budget: &mut usize,
+       fen: &str, texts: &mut Vec<String>, with_text: bool, n: &mut u64) {
+    if *budget == 0 {
+        return;
+    }
+    *budget -= 1;
+    let path = json!({"fen": fen, "texts": texts, "capsfrom": -1});
+    let (ev, moves) = gen_event(t, board, MoveGenerationMode::AllMoves, par, via, with_text, "bfs", &path);
+    let line = out.emit(shard, &ev);
+    *n += 1;
+    if depth == 0 {
+        return;
+    }
+    for (j, m) in moves.iter().enumerate() {
+        texts.push(printed_move(m));
+        bfs(t, out, shard, m, line, j + 1, depth - 1, budget, fen, texts, with_text, n);
+        texts.pop();
+    }
+}
+
 pub fn position_event(t: &Tables, start_fen: &str, startpos: bool, texts: &[String]) -> Value {
     // prefix states through the text applier, move by move
     let mut b = BoardState::from_fen(start_fen).unwrap();
@@ -220,6 +343,34 @@ pub fn run(t: &Tables, seeds: &[String], dir: &str, nshards: usize, seed: u64, c
     let mut n_gen = 0u64;
     let mut n_dup = 0u64;
     let mut n_pos = 0u64;
+    // exhaustive part: from every small seed (at most 10 men) all successor chains of length bfs_depth,
+    // through the engine's own successor objects
+    let mut n_bfs = 0u64;
+    if cfg.bfs_depth > 0 {
+        let mut budget = cfg.bfs_budget;
+        let small: Vec<&String> = seeds.iter().filter(|f| f.split(' ').next().unwrap_or("").chars().filter(|c| c.is_alphabetic()).count() <= 10).collect();
+        let per_seed = budget / small.len().max(1);
+        for (si, fen) in small.iter().enumerate() {
+            let board = match BoardState::from_fen(fen) {
+                Ok(b) => b,
+                Err(_) => continue,
+            };
+            budget = per_seed;
+            let mut texts: Vec<String> = Vec::new();
+            bfs(t, &mut out, si % nshards, &board, 0, 0, cfg.bfs_depth, &mut budget, fen, &mut texts, cfg.with_text, &mut n_bfs);
+        }
+    }
+    // seeded geometric families (castling next to captures on the corners, en passant with pins, promotion with
+    // captures): random members, each explored with all chains of length 2
+    let mut n_fam = 0u64;
+    for fi in 0..cfg.family {
+        if let Some(board) = family_member(t, &mut rng, fi) {
+            let fen = to_fen(&board, 0, 1);
+            let mut budget = 80usize;
+            let mut texts: Vec<String> = Vec::new();
+            bfs(t, &mut out, fi % nshards, &board, 0, 0, 1, &mut budget, &fen, &mut texts, cfg.with_text, &mut n_fam);
+        }
+    }
     for i in 0..cfg.playouts {
         let shard = i % nshards;
         let fen = &seeds[i % seeds.len()];
@@ -288,7 +439,7 @@ pub fn run(t: &Tables, seeds: &[String], dir: &str, nshards: usize, seed: u64, c
         }
     }
     out.finish();
-    json!({"gen_events": n_gen, "dup_skipped": n_dup, "pos_events": n_pos, "lines": out.lines})
+    json!({"gen_events": n_gen, "bfs_events": n_bfs, "family_events": n_fam, "dup_skipped": n_dup, "pos_events": n_pos, "lines": out.lines})
 }
 
 // Replay: walk from `fen` along `texts` through the engine's own successor objects (capture-only
